@@ -22,11 +22,15 @@ type StreamCase struct {
 	Mode   string `json:"mode"`   // "decode", "token", "mixed", "encode"
 	Indent string `json:"indent"` // encoder indent
 	Escape bool   `json:"escape_html"`
+	// EOFWithData: the reader returns io.EOF together with its last bytes (as
+	// HTTP bodies and iotest.DataErrReader do) instead of in a separate empty Read.
+	EOFWithData bool `json:"eof_with_data,omitempty"`
 }
 
 type chunkReader struct {
-	b []byte
-	n int
+	b       []byte
+	n       int
+	eofData bool
 }
 
 func (r *chunkReader) Read(p []byte) (int, error) {
@@ -42,6 +46,9 @@ func (r *chunkReader) Read(p []byte) (int, error) {
 	}
 	copy(p, r.b[:n])
 	r.b = r.b[n:]
+	if r.eofData && len(r.b) == 0 {
+		return n, io.EOF
+	}
 	return n, nil
 }
 
@@ -78,11 +85,12 @@ func drawStream(t *rapid.T) StreamCase {
 		}
 	}
 	return StreamCase{
-		Stream: b,
-		Chunk:  rapid.SampledFrom([]int{1, 2, 3, 7, 64, 512, 4096}).Draw(t, "chunk"),
-		Mode:   rapid.SampledFrom([]string{"decode", "token", "mixed", "encode"}).Draw(t, "mode"),
-		Indent: rapid.SampledFrom([]string{"", " ", "\t"}).Draw(t, "indent"),
-		Escape: rapid.Bool().Draw(t, "esc"),
+		Stream:      b,
+		Chunk:       rapid.SampledFrom([]int{1, 2, 3, 7, 64, 512, 4096}).Draw(t, "chunk"),
+		Mode:        rapid.SampledFrom([]string{"decode", "token", "mixed", "encode"}).Draw(t, "mode"),
+		Indent:      rapid.SampledFrom([]string{"", " ", "\t"}).Draw(t, "indent"),
+		Escape:      rapid.Bool().Draw(t, "esc"),
+		EOFWithData: gen.OneIn(t, 3, "eofdata"),
 	}
 }
 
@@ -102,7 +110,7 @@ func tokNorm(tk any) any {
 
 // trace runs a decoder through the mode's action script and records everything observable.
 func traceFork(c StreamCase) (tr []any) {
-	d := fj.NewDecoder(&chunkReader{c.Stream, c.Chunk})
+	d := fj.NewDecoder(&chunkReader{c.Stream, c.Chunk, c.EOFWithData})
 	d.UseNumber()
 	for step := 0; step < 200; step++ {
 		tr = append(tr, "more", d.More(), "offset", d.InputOffset())
@@ -130,7 +138,7 @@ func traceFork(c StreamCase) (tr []any) {
 }
 
 func traceStd(c StreamCase) (tr []any) {
-	d := stdjson.NewDecoder(&chunkReader{c.Stream, c.Chunk})
+	d := stdjson.NewDecoder(&chunkReader{c.Stream, c.Chunk, c.EOFWithData})
 	d.UseNumber()
 	for step := 0; step < 200; step++ {
 		tr = append(tr, "more", d.More(), "offset", d.InputOffset())
